@@ -12,7 +12,8 @@ out unless `HFSM2_ENABLE_ASSERT`).  The value functions below are total (`getD` 
 has a companion `…Touched` giving the byte indices it dereferences, so that "touches no byte outside
 the array / outside the view" is a statement about the model, and theorems carry the in-contract
 hypothesis explicitly.  `View.toBoolRun` (the only accessor whose set of dereferenced bytes is data
-dependent, and the one that leaves its range, finding F9) returns value and trace from one loop, and is
+dependent; before the repair of finding F9 it also read one byte past a whole-byte view) returns value
+and trace from one loop, and is
 parameterised by the value `oob` an out-of-array read would produce.
 -/
 namespace Hfsm.Model.Bits
@@ -55,8 +56,16 @@ def clear (s : Storage) (i : Nat) : Storage :=
 
 /-! ### whole array, all units -/
 
-/-- `BitArrayT::set()`: every unit `= UINT8_MAX` (including the padding bits `CAPACITY … 8·UNIT_COUNT-1`). -/
-def setAll (s : Storage) : Storage := s.map (fun _ => 255#8)
+/-- `BitArrayT::set()`: every unit `= UINT8_MAX`, then (repair of the padding-bit finding)
+`const Index tail = CAPACITY % 8; if (tail) _storage[UNIT_COUNT - 1] = (uint8_t) ((1 << tail) - 1);`
+so the padding bits `CAPACITY … 8·UNIT_COUNT-1` of the last unit stay clear. -/
+def setAll (cap : Nat) (s : Storage) : Storage :=
+  let s1 := s.map (fun _ => 255#8)
+  let tail := cap % 8
+  if tail ≠ 0 then s1.set (unitCount cap - 1) ((1#8 <<< tail) - 1#8) else s1
+
+/-- Unit written a second time by `set()` when `CAPACITY % 8 ≠ 0` (all units are written by the loop). -/
+def setAllTailTouched (cap : Nat) : List Nat := if cap % 8 ≠ 0 then [unitCount cap - 1] else []
 
 /-- `BitArrayT::clear()`: every unit `= 0`. -/
 def clearAll (s : Storage) : Storage := s.map (fun _ => 0#8)
@@ -130,18 +139,21 @@ def scanFull (oob : Byte) (s : Storage) («at» : Nat) : Nat → Bool × List Na
       (r.1, «at» :: r.2)
 
 /-- `Bits::operator bool()` / `CBits::operator bool()`, value and the byte indices it reads, in order.
-After the full units it *always* executes `const uint8_t& unit = _storage[fullUnits]; (unit & mask) != 0`
-with `mask = (1 << width % 8) - 1`, also when `width % 8 == 0` (mask 0): that byte is outside the view,
-and outside the array when the view ends at the last unit (F9).  `oob` is what such a read yields. -/
+After the full units: `const Short bit = _width % 8; if (bit == 0) return false;` (repair of F9: a
+whole-byte view no longer reads the byte after it), else
+`const uint8_t& unit = _storage[fullUnits]; (unit & mask) != 0` with `mask = (1 << bit) - 1`.
+`oob` is what a read outside the array would yield. -/
 def toBoolRun (oob : Byte) (s : Storage) (unit width : Nat) : Bool × List Nat :=
   let fullUnits := width / 8
   let r := scanFull oob s unit fullUnits
   if r.1 then (true, r.2)
   else
     let bit := width % 8
-    let m : Byte := (1#8 <<< bit) - 1#8
-    let u := s.getD (unit + fullUnits) oob
-    ((u &&& m) != 0#8, r.2 ++ [unit + fullUnits])
+    if bit = 0 then (false, r.2)
+    else
+      let m : Byte := (1#8 <<< bit) - 1#8
+      let u := s.getD (unit + fullUnits) oob
+      ((u &&& m) != 0#8, r.2 ++ [unit + fullUnits])
 
 /-- Value of `operator bool` (reads outside the array yield 0; `Props.C18` shows the value does not
 depend on that choice). -/
